@@ -1,6 +1,6 @@
 (* C11 — pinned statements (interval level).  Only statements, [exact], Check and
    Print Assumptions live here. *)
-From QV Require Import Intervals.Model Intervals.Proofs.
+From QV Require Import Intervals.Model Intervals.Proofs Intervals.Extra Intervals.Full.
 Open Scope Z_scope.
 
 Lemma cap_ok : (1 < CAP)%nat. Proof. unfold CAP. lia. Qed.
@@ -40,14 +40,18 @@ Proof. intros s o s' v. exact (step_union_monotone CAP cap_ok s o s' v). Qed.
 Theorem C11_contains_iff : forall a v, WF CAP a -> contains CAP a v = Some (mem v a).
 Proof. exact (contains_iff CAP cap_ok). Qed.
 
-(* subset test: sound whenever the intersection fold stays below the capacity
-   (computable side condition, always true when |a|*|b| < 128, e.g. for every
-   single-interval type).  Full statement (no side condition) not yet proved. *)
-Theorem C11_is_subset_of_sound_partial : forall a b,
-  WF CAP a -> WF CAP b -> (length (xpieces a b) < CAP)%nat ->
-  is_subset_of CAP a b = Some true ->
+(* subset test: sound for all well-formed operands, whether or not the fold that computes the
+   intersection crossed the capacity and replaced the accumulator by its hull (an interval produced
+   by such a hull holds CAP points of pairwise different cells, so it cannot be an interval of a) *)
+Theorem C11_is_subset_of_sound : forall a b,
+  WF CAP a -> WF CAP b -> is_subset_of CAP a b = Some true ->
   forall v, mem v a = true -> mem v b = true.
-Proof. exact (is_subset_of_sound_partial CAP cap_ok). Qed.
+Proof. exact (is_subset_of_sound CAP cap_ok). Qed.
+
+(* the number of pieces of an intersection is linear in the number of intervals *)
+Theorem C11_pieces_linear : forall src self, wf self -> wf src ->
+  (length (pieces self src) <= length self + length src)%nat.
+Proof. exact pieces_length_add. Qed.
 
 (* non-vacuity: a concrete history crossing nothing trivial *)
 Example C11_history_example :
@@ -71,4 +75,5 @@ Print Assumptions C11_intersection_superset.
 Print Assumptions C11_simplify_superset.
 Print Assumptions C11_step_sound.
 Print Assumptions C11_contains_iff.
-Print Assumptions C11_is_subset_of_sound_partial.
+Print Assumptions C11_is_subset_of_sound.
+Print Assumptions C11_pieces_linear.
